@@ -6,7 +6,7 @@ import InfluxQL.Lemmas.StmtPieces
 import InfluxQL.Lemmas.StmtExprPieces
 import InfluxQL.Lemmas.SelectPieces
 import InfluxQL.Lemmas.SelectClauses
-import InfluxQL.Lemmas.SelectBody
+import InfluxQL.Lemmas.SelectSubquery
 import InfluxQL.Lemmas.IntLit
 import InfluxQL.Lemmas.RegexRoundTrip
 import InfluxQL.Lemmas.NumberRoundTrip
@@ -2672,6 +2672,70 @@ end
 
 example : (match (runHandler 204 .parseSelectStatement_targetNotRequired).run (PState.init exWideText [] []) with
     | .ok (.select st, _) => st.print == tx "SELECT" ++ exWideText
+    | _ => false) = true := by decide +kernel
+
+/-! ### SELECT with subqueries as sources, nested to any depth -/
+
+/-- A statement of the class `selOKB tbl n` prints as the keyword `SELECT` and its tail. -/
+theorem selectSub_print (tbl : List (Char × Char)) (n : Nat) (st : SelectStmt) (h : selOKB tbl n st = true) :
+    (Statement.select st).print = tx "SELECT" ++ selectTail st := by
+  obtain ⟨y, hy⟩ := selOKB_print tbl n st h
+  show st.print = _
+  rw [selectTail_of_print hy]
+  exact hy
+
+/-- **Print → parse, SELECT with subqueries.** For every nesting depth `n`: `parseSelectStatement` on the text
+`SelectStatement.String()` writes after the keyword `SELECT`, followed by `k`, returns exactly the statement — every
+`FROM (SELECT …)` as a `SubQuery` source with its own statement, recursively — and stands before `k`, or the fuel
+was too small. (The model hands the subquery parser to `parseSource` and `parseSelect` is structural on its fuel;
+the proof is an induction on the depth over the body lemma `selectBody_printW`, which is generic in the sources.)
+
+Partial — the class `selOKB s.lowerTbl n st`, a decidable predicate on the AST: at every level the clauses of
+`selectWide_print_parse_partial` (`BodyOKW`), sources that are qualified measurements with a name or subqueries of
+the class, less than `n` levels deep. Excluded as there: regex sources and dimensions, call names needing quotes
+or changed by the table, the negated-operand trees, non-canonical decimals, empty measurement names; and statements
+whose `TimeAlias` / `OmitTime` / `StripName` / `EmitName` / `Dedupe` were set by a later pass (not printed). -/
+theorem selectSub_print_parse_partial (n fuel : Nat) (s : PState) (st : SelectStmt) (k : Str)
+    (hok : selOKB s.lowerTbl n st = true) (hk : Follow k selectStop) (hs : s.Before (selectTail st ++ k)) :
+    wp (runHandler (fuel + n + 3) .parseSelectStatement_targetNotRequired) s
+      (fun r s' => r = .select st ∧ RT.Stand s' k) (· = .fuel) := by
+  simp only [runHandler]
+  rw [wp_bind]
+  refine wp_mono (parseSelect_sub s.lowerTbl n fuel st s k hok rfl hk hs) ?_ (fun _ h => h)
+  intro r s' ⟨hr, hs'⟩
+  rw [wp_pure, hr]
+  exact ⟨rfl, hs'⟩
+
+/-- Non-vacuity: `SELECT mean(x) FROM (SELECT max(value) AS x FROM (SELECT value FROM db.rp.cpu WHERE host = 'a')
+GROUP BY time(5m) fill(none)), m GROUP BY host LIMIT 5`. -/
+def exSub2 : SelectStmt :=
+  wideSelect ⟨.varRef "value".toList .Unknown, []⟩ [] none [qualSrc ("db".toList, "rp".toList, "cpu".toList)]
+    (some (.binary .EQ (.varRef "host".toList .Unknown) (.string ['a']))) [] .null .none [] 0 0 0 0 none
+def exSub1 : SelectStmt :=
+  wideSelect ⟨.call "max".toList [.varRef "value".toList .Unknown], ['x']⟩ [] none [.subquery exSub2] none
+    [.call "time".toList [.duration 300000000000]] .none .none [] 0 0 0 0 none
+def exSub0 : SelectStmt :=
+  wideSelect ⟨.call "mean".toList [.varRef ['x'] .Unknown], []⟩ [] none [.subquery exSub1, qualSrc ([], [], ['m'])] none
+    [.varRef "host".toList .Unknown] .null .none [] 5 0 0 0 none
+
+example : selectTail exSub0 = (" mean(x) FROM (SELECT max(value) AS x FROM (SELECT value FROM db.rp.cpu " ++
+    "WHERE host = 'a') GROUP BY time(5m) fill(none)), m GROUP BY host LIMIT 5").toList := by decide +kernel
+
+-- in the class at depth 3, not at depth 2; a regex source is outside
+example : selOKB [] 3 exSub0 = true ∧ selOKB [] 2 exSub0 = false ∧
+    selOKB [] 1 (wideSelect ⟨.varRef ['a'] .Unknown, []⟩ [] none [.measurement { regex := some ['x'] }] none [] .null .none []
+      0 0 0 0 none) = false := by decide +kernel
+
+section
+attribute [local irreducible] wp
+example : wp (runHandler 206 .parseSelectStatement_targetNotRequired) (PState.init (selectTail exSub0) [] [])
+    (fun st s' => st = .select exSub0 ∧ RT.Stand s' [eofRune]) (· = .fuel) :=
+  selectSub_print_parse_partial 3 200 (PState.init (selectTail exSub0) [] []) exSub0 [eofRune] (by decide +kernel)
+    (Follow.eof _ (by decide)) (init_before (selectTail exSub0) (by decide +kernel))
+end
+
+example : (match (runHandler 206 .parseSelectStatement_targetNotRequired).run (PState.init (selectTail exSub0) [] []) with
+    | .ok (.select st, _) => st.print == exSub0.print
     | _ => false) = true := by decide +kernel
 
 /-! ## passwords -/
